@@ -102,7 +102,18 @@ def build_circuit(cspec):
     common.use_repo()
     import orquestra.quantum.circuits as oqc
     ops = [build_gate(o["g"])(*o["qs"]) for o in cspec["ops"]]
-    return oqc.Circuit(ops, n_qubits=cspec.get("n"))
+    c = oqc.Circuit(ops, n_qubits=cspec.get("n"))
+    scribble(ops)
+    return c
+
+
+def scribble(ops):
+    """the caller goes on using ITS OWN list after a circuit was built from it (a circuit is a value: growing an ansatz in
+    one working list and taking a Circuit(ops) snapshot per layer must not change the earlier snapshots)"""
+    if ops:
+        ops.reverse()
+        ops.extend(ops[:2])
+        del ops[0]
 
 
 def random_builtin_spec(rng, names=None, exact_only=False):
